@@ -1,1 +1,227 @@
-(* placeholder *)
+(* Lemmas about BoxCycle.v (C14): the search is reachability; boxing removes every by-value cycle
+   through a message; cycles made of unions / typedefs only survive (finding F-14b). *)
+From Coq Require Import List Bool Arith Lia.
+From PVBld Require Import BoxCycle.
+Import ListNotations.
+
+(* ---- reachability ---------------------------------------------------------------------- *)
+Lemma reach_trans E a b c : reach E a b -> reach E b c -> reach E a c.
+Proof. induction 1; [auto|]. intros. eapply reach_step; eauto. Qed.
+
+Lemma reach_incl E E' a b : incl E E' -> reach E a b -> reach E' a b.
+Proof. intros I. induction 1; [constructor|]. eapply reach_step; eauto. Qed.
+
+Lemma in_succs E a c : In c (succs E a) <-> In (a, c) E.
+Proof.
+  unfold succs. rewrite in_map_iff. split.
+  - intros [[x y] [H1 H2]]. apply filter_In in H2. destruct H2 as [H2 H3]. cbn in *.
+    apply Nat.eqb_eq in H3. now subst.
+  - intros H. exists (a, c). split; [reflexivity|]. apply filter_In. split; [assumption|]. cbn. apply Nat.eqb_refl.
+Qed.
+
+Lemma in_drop_from E v x y : In (x, y) (drop_from E v) <-> In (x, y) E /\ x <> v.
+Proof.
+  unfold drop_from. rewrite filter_In. cbn. rewrite negb_true_iff, Nat.eqb_neq. tauto.
+Qed.
+
+Lemma drop_from_incl E v : incl (drop_from E v) E.
+Proof. intros [x y] H. now apply in_drop_from in H. Qed.
+
+(* a path from a to b either never leaves v, or its part after the last departure from v avoids v's edges *)
+Lemma reach_last_departure E v a b :
+  reach E a b ->
+  reach (drop_from E v) a b \/ exists c, In (v, c) E /\ reach (drop_from E v) c b.
+Proof.
+  induction 1 as [a|a c b H R IH].
+  - left. constructor.
+  - destruct IH as [IH|IH]; [|now right].
+    destruct (Nat.eq_dec a v) as [->|N].
+    + right. exists c. split; assumption.
+    + left. eapply reach_step; [|exact IH]. apply in_drop_from. split; assumption.
+Qed.
+
+Lemma reach_no_out E a b : (forall c, ~ In (a, c) E) -> reach E a b -> a = b.
+Proof. intros N R. destruct R; [reflexivity|]. exfalso. eapply N; eauto. Qed.
+
+Lemma reach_unfold E a b :
+  reach E a b -> a = b \/ exists c, In (a, c) E /\ reach (drop_from E a) c b.
+Proof.
+  intros R. destruct (reach_last_departure E a a b R) as [H|H]; [|now right].
+  left. eapply reach_no_out; [|exact H]. intros c I. apply in_drop_from in I. destruct I as [_ I]. now apply I.
+Qed.
+
+Lemma filter_len_le {A} (f : A -> bool) l : length (filter f l) <= length l.
+Proof. induction l as [|x l IH]; cbn; [lia|]. destruct (f x); cbn; lia. Qed.
+
+Lemma drop_from_length E a c : In (a, c) E -> length (drop_from E a) < length E.
+Proof.
+  induction E as [|[x y] E IH]; cbn; [tauto|]. intros [H|H].
+  - injection H as -> ->. rewrite Nat.eqb_refl. cbn.
+    pose proof (filter_len_le (fun e => negb (fst e =? a)) E). unfold drop_from. lia.
+  - specialize (IH H). destruct (x =? a); cbn; unfold drop_from in *; lia.
+Qed.
+
+Lemma dfs_sound fuel E a b : dfs fuel E a b = true -> reach E a b.
+Proof.
+  revert E a. induction fuel as [|f IH]; intros E a; cbn; [discriminate|].
+  intros H. apply orb_prop in H. destruct H as [H|H].
+  - apply Nat.eqb_eq in H. subst. constructor.
+  - apply existsb_exists in H. destruct H as [c [H1 H2]]. apply in_succs in H1.
+    eapply reach_step; [exact H1|]. apply reach_incl with (E := drop_from E a); [apply drop_from_incl|].
+    apply IH. exact H2.
+Qed.
+
+Lemma dfs_complete fuel E a b : length E < fuel -> reach E a b -> dfs fuel E a b = true.
+Proof.
+  revert E a. induction fuel as [|f IH]; intros E a L R; [lia|]. cbn.
+  apply reach_unfold in R. destruct R as [->|[c [H1 H2]]].
+  - now rewrite Nat.eqb_refl.
+  - apply orb_true_iff. right. apply existsb_exists. exists c. split; [now apply in_succs|].
+    apply IH; [|assumption]. pose proof (drop_from_length E a c H1). lia.
+Qed.
+
+Lemma reachb_correct E a b : reachb E a b = true <-> reach E a b.
+Proof. unfold reachb. split; [apply dfs_sound|apply dfs_complete; lia]. Qed.
+
+(* ---- edges ------------------------------------------------------------------------------ *)
+Lemma in_edges_of T g a c :
+  In (a, c) (edges_of T g) <-> exists it, In (a, it) g /\ In c (T a it).
+Proof.
+  unfold edges_of. rewrite in_flat_map. split.
+  - intros [[d it] [H1 H2]]. cbn in H2. apply in_map_iff in H2. destruct H2 as [x [E H2]].
+    injection E as -> ->. now exists it.
+  - intros [it [H1 H2]]. exists (a, it). split; [assumption|]. cbn. now apply in_map.
+Qed.
+
+Lemma paths_in d l : In d (paths l) <-> In (TPath d) l.
+Proof.
+  induction l as [|[e|] r IH]; cbn; [tauto| |].
+  - rewrite IH. split; intros [H|H]; auto; left; congruence.
+  - rewrite IH. split; [auto|]. intros [H|H]; [discriminate|assumption].
+Qed.
+
+Lemma residual_incl g : incl (residual_edges g) (edges g).
+Proof.
+  intros [a c] H. apply in_edges_of in H. destruct H as [it [H1 H2]].
+  apply in_edges_of. exists it. split; [assumption|].
+  destruct it; cbn in *; try assumption.
+  apply paths_in in H2. apply filter_In in H2. now apply paths_in.
+Qed.
+
+Lemma nonstruct_incl_residual g : incl (nonstruct_edges g) (residual_edges g).
+Proof.
+  intros [a c] H. apply in_edges_of in H. destruct H as [it [H1 H2]].
+  apply in_edges_of. exists it. split; [assumption|]. destruct it; cbn in *; tauto.
+Qed.
+
+Lemma NoDup_fst_unique {A B} (g : list (A * B)) a x y :
+  NoDup (map fst g) -> In (a, x) g -> In (a, y) g -> x = y.
+Proof.
+  induction g as [|[k v] g IH]; cbn; [tauto|]. intros N [H1|H1] [H2|H2]; inversion N as [|? ? N1 N2]; subst.
+  - congruence.
+  - injection H1 as -> ->. exfalso. apply N1. change a with (fst (a, y)). now apply in_map.
+  - injection H2 as -> ->. exfalso. apply N1. change a with (fst (a, x)). now apply in_map.
+  - now apply IH.
+Qed.
+
+(* ---- C14_box_breaks_cycles ----------------------------------------------------------------- *)
+Lemma box_breaks_cycles g d fs :
+  NoDup (map fst g) -> In (d, IMsg fs) g -> ~ on_cycle (residual_edges g) d.
+Proof.
+  intros N I [c [H R]].
+  apply in_edges_of in H. destruct H as [it [H1 H2]].
+  assert (it = IMsg fs) by (eapply NoDup_fst_unique; eauto). subst it.
+  cbn [residual_targets] in H2. apply paths_in in H2. apply filter_In in H2. destruct H2 as [_ H2].
+  apply negb_true_iff in H2. unfold boxed, is_nested in H2.
+  assert (reachb (edges g) c d = true); [|congruence].
+  apply reachb_correct. eapply reach_incl; [apply residual_incl|exact R].
+Qed.
+
+(* every edge that BoxedPlugin boxes lies on a by-value cycle, and every message-field edge on a
+   by-value cycle is boxed: "a struct field is boxed iff its target reaches the struct" *)
+Lemma boxed_iff_on_cycle g d fs c :
+  NoDup (map fst g) -> In (d, IMsg fs) g -> In (TPath c) fs ->
+  (boxed g d (TPath c) = true <-> reach (edges g) c d).
+Proof. intros _ _ _. cbn. unfold is_nested. apply reachb_correct. Qed.
+
+(* ---- the complementary case: a cycle without any message-field edge is not broken (F-14b) ------- *)
+Definition union_cycle : graph :=
+  [(0, IEnum [[TPath 1]; [TOther]]); (1, IEnum [[TPath 0]; [TOther]])].
+
+Lemma box_union_cycle_refuted :
+  NoDup (map fst union_cycle) /\ on_cycle (residual_edges union_cycle) 0 /\ ~ finite_size union_cycle.
+Proof.
+  assert (C : on_cycle (residual_edges union_cycle) 0).
+  { exists 1. split; [cbn; tauto|]. eapply reach_step; [|constructor]. cbn. tauto. }
+  split; [|split].
+  - cbn. repeat constructor; cbn; intuition discriminate.
+  - exact C.
+  - intros F. exact (F 0 C).
+Qed.
+
+(* ---- and that is the only way: no union/typedef-only cycle => everything has finite size -------- *)
+Lemma reach_split_at_msg g a b :
+  NoDup (map fst g) ->
+  reach (residual_edges g) a b ->
+  reach (nonstruct_edges g) a b \/
+  exists m fs, In (m, IMsg fs) g /\ reach (residual_edges g) a m /\ reach (residual_edges g) m b.
+Proof.
+  intros N. induction 1 as [a|a c b H R IH].
+  - left. constructor.
+  - pose proof H as H'. apply in_edges_of in H'. destruct H' as [it [H1 H2]].
+    destruct it as [fs|vs|t|].
+    + right. exists a, fs. split; [assumption|]. split; [constructor|]. eapply reach_step; eauto.
+    + destruct IH as [IH|[m [fs [I [R1 R2]]]]].
+      * left. eapply reach_step; [|exact IH]. apply in_edges_of. exists (IEnum vs). split; assumption.
+      * right. exists m, fs. split; [assumption|]. split; [eapply reach_step; eauto|assumption].
+    + destruct IH as [IH|[m [fs [I [R1 R2]]]]].
+      * left. eapply reach_step; [|exact IH]. apply in_edges_of. exists (INewType t). split; assumption.
+      * right. exists m, fs. split; [assumption|]. split; [eapply reach_step; eauto|assumption].
+    + cbn in H2. destruct H2.
+Qed.
+
+Lemma box_acyclic g :
+  NoDup (map fst g) ->
+  (forall a, ~ on_cycle (nonstruct_edges g) a) ->
+  finite_size g.
+Proof.
+  intros N NS a [c [H R]].
+  pose proof H as H'. apply in_edges_of in H'. destruct H' as [it [H1 H2]].
+  destruct it as [fs|vs|t|].
+  - eapply box_breaks_cycles; eauto. exists c. split; assumption.
+  - destruct (reach_split_at_msg g c a N R) as [R'|[m [fs [I [R1 R2]]]]].
+    + apply (NS a). exists c. split; [|assumption]. apply in_edges_of. exists (IEnum vs). split; assumption.
+    + (* the cycle passes through message m: rotate it *)
+      apply (box_breaks_cycles g m fs N I).
+      destruct R2 as [m|m c' a' E R2].
+      * exists c. split; assumption.
+      * exists c'. split; [assumption|]. eapply reach_trans; [exact R2|]. eapply reach_step; [exact H|exact R1].
+  - destruct (reach_split_at_msg g c a N R) as [R'|[m [fs [I [R1 R2]]]]].
+    + apply (NS a). exists c. split; [|assumption]. apply in_edges_of. exists (INewType t). split; assumption.
+    + apply (box_breaks_cycles g m fs N I).
+      destruct R2 as [m|m c' a' E R2].
+      * exists c. split; assumption.
+      * exists c'. split; [assumption|]. eapply reach_trans; [exact R2|]. eapply reach_step; [exact H|exact R1].
+  - cbn in H2. destruct H2.
+Qed.
+
+(* non-vacuity: a self-recursive struct, a struct <-> union cycle and a three-struct ring: the
+   hypotheses hold, the offending fields are boxed, the others are not *)
+Definition sample_graph : graph :=
+  [(0, IMsg [TPath 0; TOther; TPath 3]);                 (* A { a: A, x: i32, e: E } *)
+   (1, IMsg [TPath 2]); (2, IEnum [[TPath 1]; [TOther]]); (* B { u: U }   union U { B b; i32 i } *)
+   (3, IEnum [[]; []]);                                   (* enum E *)
+   (4, IMsg [TPath 5]); (5, IMsg [TPath 6; TPath 0]); (6, IMsg [TPath 4; TOther])].
+
+Example box_nonvacuous :
+  NoDup (map fst sample_graph) /\
+  (forall a, ~ on_cycle (nonstruct_edges sample_graph) a) /\
+  box_decisions sample_graph =
+    [(0, 0, true); (0, 2, false); (1, 0, true); (4, 0, true); (5, 0, true); (5, 1, false); (6, 0, true)].
+Proof.
+  split; [|split].
+  - cbn. repeat constructor; cbn; intuition discriminate.
+  - intros a [c [H R]]. cbn in H. destruct H as [H|[]]. injection H as <- <-.
+    apply reach_unfold in R. destruct R as [R|[c [H _]]]; [discriminate|]. cbn in H. destruct H as [H|[]]. discriminate.
+  - vm_compute. reflexivity.
+Qed.
